@@ -120,13 +120,17 @@ CallRec(e) == [op |-> e.op, p |-> e.p, q |-> e.q, c |-> e.c, f |-> e.f]
 CfgRec == [sup |-> cfg.sup, ro |-> cfg.ro]
 BadCall(e, r) ==
   LET o == e.obs
-      q == IF HasDest(e.op) THEN e.q ELSE e.p IN
+      q == IF HasDest(e.op) THEN e.q ELSE e.p
+      matches == r.regime = "spec" /\ WellFormed(r.t) /\ ObsMatches(o, r.t) IN
   (IF e.res.c # "panic" /\ NoPanicObs(o) THEN {} ELSE {"nopanic"})
   \cup (IF e.res.c \in r.allowed THEN {} ELSE {"class"})
   \cup (IF e.op = "copy_dir" /\ e.res.c = "ok" /\ r.regime = "spec" /\ e.res.val # r.val THEN {"value"} ELSE {})
-  \cup (IF r.regime = "spec" /\ ~ObsMatches(o, r.t) THEN {"effect"} ELSE {})
-  \cup (IF WellFormedObs(o) THEN {} ELSE {"wellformed"})
-  \cup (IF ObserversAgree(o) THEN {} ELSE {"observers"})
+  \* when the record equals what a well-formed tree prescribes, WellFormedObs and ObserversAgree are
+  \* consequences (checked once by TLC in MC_ObsLemma); they are evaluated whenever that is not the case
+  \cup (IF matches THEN {}
+        ELSE (IF r.regime = "spec" THEN {"effect"} ELSE {})
+             \cup (IF WellFormedObs(o) THEN {} ELSE {"wellformed"})
+             \cup (IF ObserversAgree(o) THEN {} ELSE {"observers"}))
   \cup (IF (e.res.c \in ErrClasses => EpOK(e.res.ep, e.p, q)) /\ ObsErrPathsOK(o) THEN {} ELSE {"errpath"})
   \cup (IF TimesOK(e, r) THEN {} ELSE {"times"})
   \cup (IF cfg.kind = "ovl" /\ "layers" \in DOMAIN e
